@@ -20,10 +20,10 @@ def pipe(exe, modelrun, env, args, trace=False, timeout=1700):
     return rc, out
 
 
-def run_seq(exe, modelrun, env, cmds, trace=False):
-    """execute one command sequence on the implementation and the model; returns parsed result"""
+def run_seq(exe, modelrun, env, cmds, trace=False, cls="replay"):
+    """execute one command sequence on the implementation and the model (cls "rpc": also through the RPC handlers)"""
     with tempfile.NamedTemporaryFile("w", suffix=".seq", delete=False) as fh:
-        fh.write("S\tr0\treplay\n" + "".join("C\t%s\n" % c for c in cmds))
+        fh.write("S\tr0\t%s\n" % cls + "".join("C\t%s\n" % c for c in cmds))
         name = fh.name
     try:
         rc, out = pipe(exe, modelrun, env, "run '%s'" % name, trace=trace, timeout=120)
@@ -189,7 +189,7 @@ def main(tier, replay):
     else:
         if replay:
             case = json.load(open(replay))
-            r = run_seq(exe, modelrun, env, case.get("sequence") or [], trace=True)
+            r = run_seq(exe, modelrun, env, case.get("sequence") or [], trace=True, cls="rpc" if case.get("oracle") == "handler_glue" else "replay")
             res = r
             vlib.log("replayed %d commands: %d oracle failures, %d model mismatches" % (len(case.get("sequence") or []), len(r["fails"]), len(r["mism"])))
         else:
@@ -200,7 +200,7 @@ def main(tier, replay):
 
         def describe(item, kind):
             seq = item["sequence"] or []
-            tr = run_seq(exe, modelrun, env, seq, trace=True)
+            tr = run_seq(exe, modelrun, env, seq, trace=True, cls="rpc" if item["what"] == "handler_glue" else "replay")
             obj = {"kind": kind, "oracle" if kind == "property-oracle" else "correspondence": item["what"], "class": item["class"],
                    "sequence": seq, "op_index": item["op_index"], "detail": item["detail"],
                    "trace": [dict(zip(["cmd", "impl", "model", "impl_state", "model_state"], t)) for t in tr["trace"]],
@@ -215,8 +215,9 @@ def main(tier, replay):
                 break
             if item["sequence"]:
                 what = item["what"]
-                small = ddmin(item["sequence"], lambda c: any(f["what"] == what for f in run_seq(exe, modelrun, env, c)["fails"]))
-                r2 = run_seq(exe, modelrun, env, small)
+                cls = "rpc" if what == "handler_glue" else "replay"
+                small = ddmin(item["sequence"], lambda c: any(f["what"] == what for f in run_seq(exe, modelrun, env, c, cls=cls)["fails"]))
+                r2 = run_seq(exe, modelrun, env, small, cls=cls)
                 f2 = [f for f in r2["fails"] if f["what"] == what]
                 if f2:
                     item = f2[0]
